@@ -137,12 +137,49 @@ def run(ctx):
                 ctx.case(('nospec', cdc, data, tuple(map(str, sc))), len(sc) > 2)
                 if out != 'stop' or enc1 != enc0:
                     ctx.prop_fail('schemaless streaming run differs from the complete input', {'codec': cdc, 'data': data.hex(), 'schedule': [list(e) for e in sc], 'kind': 'nospec'})
+    large_streams(ctx)
     if meta: ctx.sample(meta[0]); ctx.sample(meta[-1])
     if not search_only:
         codes = core.coq_codes('c05', 'Model.Dec Model.Obs', exprs)
         for i, cd in codes.items():
             if cd == 2: ctx.stats['model_declines'] += 1
             else: ctx.corr_fail('model and implementation disagree on a streaming run', meta[i])
+
+
+def large_streams(ctx):
+    """streams longer than the caching wrapper's buffer, read from a non-seekable source: a long series of
+    small top-level items, and an indefinite-length container followed by more items (definite-length
+    containers longer than the buffer are the open finding F06 and are left to C11)"""
+    import io
+    from pyasn1.type import univ
+    from pyasn1.codec.ber import encoder as benc
+    r = ctx.rng
+    buf = io.DEFAULT_BUFFER_SIZE
+    scenarios = []
+    n_items = (2 * buf) // 90 + r.randint(3, 40)
+    items = b''.join(benc.encode(univ.OctetString(bytes([i % 251]) * r.randint(60, 110))) for i in range(n_items))
+    scenarios.append(('series', items, None))
+    so = univ.SequenceOf(componentType=univ.OctetString()); so.clear()
+    for i in range((buf + buf // 2) // 100 + r.randint(1, 30)):
+        so.append(bytes([i % 200]) * r.randint(80, 120))
+    scenarios.append(('indef-container+tail', benc.encode(so, defMode=False) + benc.encode(univ.Integer(7)) * 3, None))
+    for name, data, spec in scenarios:
+        ref = streams.drive(I.DEC['BER'], _closed(data), [])
+        ref_enc = [_reenc(e[1]) for e in ref[0] if not isinstance(e, str)]
+        for kind in ('nonseekable', 'nonseekable-shortreads', 'seekable'):
+            k = r.randint(2, 7)
+            cuts = sorted(r.sample(range(1, len(data)), k - 1))
+            sizes = [b - a for a, b in zip([0] + cuts, cuts + [len(data)])]
+            sc = streams.schedule_from_sizes(data, sizes, polls={0} if r.random() < .5 else ())
+            s = streams.Growing(seekable=(kind == 'seekable'), max_read=(r.choice([1, 3, 1000]) if 'short' in kind else None))
+            ev, out = streams.drive(I.DEC['BER'], s, sc)
+            got = [_reenc(e[1]) for e in ev if not isinstance(e, str)]
+            ctx.case(('large', name, kind, len(data), tuple(sizes)), True)
+            ctx.stats['large:%s/%s' % (name, kind)] += 1
+            if ref[1] == 'stop' and (out != 'stop' or got != ref_enc):
+                ctx.prop_fail('long stream (%d octets, %s) read through a %s source: %d objects, outcome %r; complete input gives %d objects' % (
+                    len(data), name, kind, len(got), out, len(ref_enc)),
+                    {'kind': kind, 'scenario': name, 'length': len(data), 'chunk_sizes': sizes, 'data_prefix': data[:64].hex()})
 
 
 def _closed(data):
